@@ -441,6 +441,7 @@ func runMix(c *Ctx, genName string, k *int64, mc *mixCase, desc any, check func(
 	}
 	nt := false
 	for _, pol := range []mcrt.Policy{mcrt.Asc, mcrt.Desc} {
+		c.Begin(&Violation{Signature: "fatal crash of the process", Generator: genName, Input: mc, Env: J{"policy": int(pol)}})
 		sig, what, nontrivial, outcome := check(mc, pol)
 		if outcome == "" && sig == "" {
 			c.Count("not_loadable", 1)
